@@ -1027,10 +1027,16 @@ def search(out, tier):
         e["crs"] = e["crs"] or "epsg:4326"
         M6, _ = gen_affine(rng)
         gp = mk_gcp(e, M6, oracle="affine")
-        op = gen_op(rng, gp)
-        if op is not None and (op[0] not in GCP_OPS or not op_exact(gp, op)):
-            op = None
-        run("gcp", {"geobox": e, "M": [fs(v) for v in M6], "op": op, "seed": k})
+        ny, nx = e["shape"]
+        ops = [gen_op(rng, gp), None] if k % 4 else [
+            None, ["pad", 1, 2], ["pad", 2, None], ["pad_wh", 4, 3], ["pad_wh", 3, None], ["pad_wh", 2, 5],
+            ["zoom_out", "2"], ["zoom_out", "1/2"], ["zoom_to_shape", 2 * ny, 4 * nx], ["zoom_to_n", "4"],
+            ["center_pixel"], ["getitem", -1], ["getitem", enc_sl((slice(None), -1))],
+            ["getitem", enc_sl((slice(-2, None), slice(None, -1)))]]
+        for op in ops:
+            if op is not None and (op[0] not in GCP_OPS or not op_exact(gp, op)):
+                continue
+            run("gcp", {"geobox": e, "M": [fs(v) for v in M6], "op": op, "seed": k})
 
 
 # ---------------------------------------------------------------- entry points
